@@ -30,6 +30,12 @@ STATEMENTS = {
     "expcone_pairing_boundary_left": "M3 on the closure: first point on the boundary c = 0, a <= 0, b >= 0",
     "rotated_cone_log": "M6: l, u, v > 0:  l^2 <= u v  <=>  2 log l <= log u + log v",
     "dro_safety": "DESIGN 3.1: (E1) pieces dominated on the supports, (E2) at the conditional means  =>  E[g] <= 0 (finite supports)",
+    "tower_step_sound": "C07: 2L <= U+V, (D/2)U <= S1, (D/2)V <= S2, D > 0  =>  D L <= S1+S2 (one step of the power-cone tower, log domain)",
+    "tower_step_exact": "C07: D L <= S1+S2, D > 0  =>  exists U, V: 2L <= U+V, (D/2)U = S1, (D/2)V = S2",
+    "tower_step_exact_direct": "C07: D L <= S1 + (D/2)V, D > 0  =>  exists U: 2L <= U+V, (D/2)U = S1 (one operand is a variable of the cone)",
+    "pow_two_even": "C07: 2 <= 2^k  =>  2^k even (the degree handed to a child meets the step's precondition)",
+    "tower_sound": "C07: induction over the tree of rotated cones: the emitted cones imply  d x <= sum_i wt_i R_i  (log domain), wt = the halving weights",
+    "tower_exact": "C07: induction over the tree: every point with  d x <= sum_i wt_i R_i  extends to the whole tower",
     "card_of_range": "A-CARD of engine LV: a finite set of naturals equal to {0..m-1} has m elements",
 }
 
